@@ -1,11 +1,12 @@
 /-
-  C02 — frame text round-trips: parse then print is the identity.
+  C02 — frame text round-trips: parse then print is the identity (the packet-log clause is in C02Log.lean).
 
   `parseFrame` / `printFrame` / `parseCommand` / `fromAttrs` are the executable models of
   Frame.__init__, Frame.__repr__, Command.__init__ and Command._from_attrs (Model/Frame.lean).
   All statements are for unbounded strings / all field values.
 -/
 import Ramses.Model.Frame
+import Ramses.Props.C02Log
 import Ramses.Proofs.ListLemmas
 namespace Ramses.C02
 open Ramses
